@@ -268,63 +268,7 @@ func checkC07(c *Ctx) {
 
 	// ---- C07.8 the known generations are exactly those of the current subnet file: a reload replaces the selector as
 	// a whole, and nothing in the station edits the generations of the live selector
-	r.Rule("C07.8", "a successful reload replaces the phantom selector as a whole; the station never edits the generations of the live selector", 2)
-	if f := c.fn("C07.8", lib, "RegistrationManager", "OnReload"); f != nil {
-		var newSel *ssa.Call
-		for _, ci := range callsIn(f, shortIs("NewPhantomIPSelector")) {
-			newSel, _ = ci.(*ssa.Call)
-		}
-		if newSel == nil {
-			r.Unk("C07.8", "OnReload: NewPhantomIPSelector", f.Pos(), fnName(f), "call not found")
-		} else {
-			var store *ssa.Store
-			for _, st := range fieldStores(f, "lib.RegistrationManager", "PhantomSelector") {
-				if ex, ok := stripConv(st.Val).(*ssa.Extract); ok && ex.Tuple == ssa.Value(newSel) && ex.Index == 0 {
-					store = st
-				}
-			}
-			okk := store != nil
-			if okk {
-				// from the "loaded" edge the store cannot be skipped
-				okEdges := edgesEstablishing(f, atomMatcher(errAtoms(newSel, true)...))
-				okk = len(okEdges) > 0
-				for e := range okEdges {
-					succ := f.Blocks[e.from].Succs[e.slot]
-					if skip, _ := reachAt(f, succ, isReturn, isInstr(store), nil); skip {
-						okk = false
-					}
-				}
-			}
-			pos := f.Pos()
-			if store != nil {
-				pos = store.Pos()
-			}
-			r.Check(okk, "C07.8", "OnReload: PhantomSelector = the newly loaded selector, whenever it loaded", pos, fnName(f), "store of NewPhantomIPSelector()#0, must-pass from err == nil",
-				"after a successful reload the station keeps (part of) the previous selector: generations that were removed from the subnet file stay known and registrations naming them are still admitted")
-		}
-	}
-	{
-		var bad []string
-		var pos token.Pos
-		n := 0
-		for _, f := range c.P.RepoFuncs() {
-			pp := fnPkgPath(f)
-			if !strings.HasPrefix(pp, repoMod+"/pkg/station/") && !strings.HasPrefix(pp, repoMod+"/cmd/") {
-				continue
-			}
-			n++
-			for _, ci := range callsIn(f, shortIs("AddGeneration", "UpdateGeneration", "RemoveGeneration")) {
-				if rv := recvOf(ci.Common()); rv != nil && strings.HasSuffix(typeShort(rv.Type()), "phantoms.PhantomIPSelector") {
-					bad = append(bad, fnName(f)+": "+calleeShort(ci.Common()))
-					pos = ci.Pos()
-				}
-			}
-		}
-		sort.Strings(bad)
-		r.Check(len(bad) == 0 && n > 0, "C07.8", "station code never adds, updates or removes a generation of a live selector", pos, "", fmt.Sprintf("%d station functions scanned", n),
-			"the set of known generations is edited in place ("+firstN(strings.Join(bad, ", "), 120)+"): it is no longer the set named by the current subnet file")
-	}
-
+	checkSelectorReplaced(c, "C07.8")
 	// ---- C07.3
 	r.Rule("C07.3", "ValidateRegistration rejects incomplete, unknown-transport and blocklisted registrations", 6)
 	if v := c.fn("C07.3", lib, "RegistrationManager", "ValidateRegistration"); v != nil {
@@ -663,4 +607,66 @@ func checkPhantomBlocklistAllSources(c *Ctx, rule string) {
 	} else {
 		r.OK(rule, "ValidateRegistration: every source but the local detector passes the phantom blocklist", okRet.Pos(), "success unreachable around IsBlocklistedPhantom once the source == Detector edges are removed")
 	}
+}
+
+// checkSelectorReplaced (C07.8, C01.11): a successful reload replaces the phantom selector as a whole.
+func checkSelectorReplaced(c *Ctx, rule string) {
+	r := c.R
+	r.Rule(rule, "a successful reload replaces the phantom selector as a whole; the station never edits the generations of the live selector", 2)
+	if f := c.fn(rule, "pkg/station/lib", "RegistrationManager", "OnReload"); f != nil {
+		var newSel *ssa.Call
+		for _, ci := range callsIn(f, shortIs("NewPhantomIPSelector")) {
+			newSel, _ = ci.(*ssa.Call)
+		}
+		if newSel == nil {
+			r.Unk(rule, "OnReload: NewPhantomIPSelector", f.Pos(), fnName(f), "call not found")
+		} else {
+			var store *ssa.Store
+			for _, st := range fieldStores(f, "lib.RegistrationManager", "PhantomSelector") {
+				if ex, ok := stripConv(st.Val).(*ssa.Extract); ok && ex.Tuple == ssa.Value(newSel) && ex.Index == 0 {
+					store = st
+				}
+			}
+			okk := store != nil
+			if okk {
+				// from the "loaded" edge the store cannot be skipped
+				okEdges := edgesEstablishing(f, atomMatcher(errAtoms(newSel, true)...))
+				okk = len(okEdges) > 0
+				for e := range okEdges {
+					succ := f.Blocks[e.from].Succs[e.slot]
+					if skip, _ := reachAt(f, succ, isReturn, isInstr(store), nil); skip {
+						okk = false
+					}
+				}
+			}
+			pos := f.Pos()
+			if store != nil {
+				pos = store.Pos()
+			}
+			r.Check(okk, rule, "OnReload: PhantomSelector = the newly loaded selector, whenever it loaded", pos, fnName(f), "store of NewPhantomIPSelector()#0, must-pass from err == nil",
+				"after a successful reload the station keeps (part of) the previous selector: generations that were removed from the subnet file stay known and registrations naming them are still admitted")
+		}
+	}
+	{
+		var bad []string
+		var pos token.Pos
+		n := 0
+		for _, f := range c.P.RepoFuncs() {
+			pp := fnPkgPath(f)
+			if !strings.HasPrefix(pp, repoMod+"/pkg/station/") && !strings.HasPrefix(pp, repoMod+"/cmd/") {
+				continue
+			}
+			n++
+			for _, ci := range callsIn(f, shortIs("AddGeneration", "UpdateGeneration", "RemoveGeneration")) {
+				if rv := recvOf(ci.Common()); rv != nil && strings.HasSuffix(typeShort(rv.Type()), "phantoms.PhantomIPSelector") {
+					bad = append(bad, fnName(f)+": "+calleeShort(ci.Common()))
+					pos = ci.Pos()
+				}
+			}
+		}
+		sort.Strings(bad)
+		r.Check(len(bad) == 0 && n > 0, rule, "station code never adds, updates or removes a generation of a live selector", pos, "", fmt.Sprintf("%d station functions scanned", n),
+			"the set of known generations is edited in place ("+firstN(strings.Join(bad, ", "), 120)+"): it is no longer the set named by the current subnet file")
+	}
+
 }
